@@ -397,4 +397,76 @@ theorem final_exchanged {cfg : Cfg} {K : Nat} {s : PCState} (hI : Inv cfg K s) (
   rw [hb] at this
   simpa using this.symm
 
+/-- no execution goes on for ever with only finitely many spurious wake-ups -/
+theorem no_infinite_run {cfg : Cfg} {K : Nat} (hrc : cfg.recheck = true) (σ : Nat → PCState) (ℓ : Nat → Label)
+    (h0 : Inv cfg K (σ 0)) (hstep : ∀ k, exec cfg (σ k) (ℓ k) = some (σ (k + 1)))
+    (B : Nat) (hB : ∀ k, B ≤ k → (ℓ k).isSpurious = false) : False := by
+  have hinv : ∀ k, Inv cfg K (σ k) := by
+    intro k
+    induction k with
+    | zero => exact h0
+    | succ k ih => exact inv_step ih hrc (hstep k)
+  have hdec : ∀ j, mu (σ (B + j)) + j ≤ mu (σ B) := by
+    intro j
+    induction j with
+    | zero => simp
+    | succ j ih =>
+      have := (mu_step (hinv (B + j)) hrc (hstep (B + j))).1 (hB (B + j) (by omega))
+      have e : B + (j + 1) = B + j + 1 := by omega
+      rw [e]; omega
+  have := hdec (mu (σ B) + 1)
+  omega
+
+/-- the only step by which a thread leaves `p_cond_variable_wait` is its re-acquisition of the
+    mutex; right after it the thread is the owner -/
+theorem leave_wait {cfg : Cfg} {s s' : PCState} {l : Label} {i : Tid} {th th' : Thr}
+    (h : exec cfg s l = some s') (hth : s.thr[i]? = some th) (hpc : th.pc = .inwait)
+    (hth' : s'.thr[i]? = some th') (hpc' : th'.pc ≠ .inwait) :
+    l = .reacquire i ∧ s'.mon.owner = some i := by
+  -- a step of thread `j` whose own pc is not `inwait` cannot change the entry of `i`
+  have other : ∀ (j : Tid) (tj tj' : Thr), s.thr[j]? = some tj → tj.pc ≠ .inwait →
+      s'.thr = s.thr.set j tj' → False := by
+    intro j tj tj' hj hne hs'
+    rw [hs', get_set _ i hj] at hth'
+    by_cases hij : i = j
+    · subst hij; rw [hth] at hj; cases hj; exact hne hpc
+    · simp only [hij, if_false] at hth'
+      rw [hth] at hth'; cases hth'; exact hpc' hpc
+  cases l with
+  | lock j =>
+    obtain ⟨tj, hj, hp, _, _, rfl⟩ := execLock_some h
+    exact (other j tj _ hj (by simp [hp]) rfl).elim
+  | check j =>
+    obtain ⟨tj, hj, hp, hcase⟩ := execCheck_some h
+    rcases hcase with ⟨_, _, rfl⟩ | ⟨_, rfl⟩
+    · exact (other j tj _ hj (by simp [hp]) rfl).elim
+    · exact (other j tj _ hj (by simp [hp]) (act_thr _ _ _ _)).elim
+  | signal j w =>
+    obtain ⟨tj, hj, hp, hcase⟩ := execSignal_some h
+    rcases hcase with ⟨_, _, rfl⟩ | ⟨_, _, _, rfl⟩ | ⟨_, x, _, _, rfl⟩ <;>
+      exact (other j tj _ hj (by simp [hp]) rfl).elim
+  | unlock j =>
+    obtain ⟨tj, hj, hp, _, rfl⟩ := execUnlock_some h
+    exact (other j tj _ hj (by simp [hp]) rfl).elim
+  | reacquire j =>
+    obtain ⟨tj, hj, hp, hw, ho, hcase⟩ := execReacquire_some h
+    by_cases hij : i = j
+    · subst hij
+      refine ⟨rfl, ?_⟩
+      rcases hcase with ⟨_, rfl⟩ | ⟨_, rfl⟩
+      · simp [Mon.reacquired]
+      · rw [act_mon]; simp [Mon.reacquired]
+    · exfalso
+      have hs' : ∃ tj', s'.thr = s.thr.set j tj' := by
+        rcases hcase with ⟨_, rfl⟩ | ⟨_, rfl⟩
+        · exact ⟨_, rfl⟩
+        · exact ⟨_, act_thr _ _ _ _⟩
+      obtain ⟨tj', hs'⟩ := hs'
+      rw [hs', get_set _ i hj] at hth'
+      simp only [hij, if_false] at hth'
+      rw [hth] at hth'; cases hth'; exact hpc' hpc
+  | spurious j =>
+    obtain ⟨tj, hj, hp, _, rfl⟩ := execSpurious_some h
+    rw [hth] at hth'; cases hth'; exact (hpc' hpc).elim
+
 end PV.CondVar
